@@ -206,19 +206,19 @@ def c03(tier):
         gen_and_replay(v, wd, tier, "C03", bound=("{0,1,2}", 4, 8, 1))
     else:
         gen_and_replay(v, wd, tier, "C03", bound=("{0,1,2}", 5, 9, 1))
-    consts = ("MaxT = 2 MaxId = 4 MaxSteps = 1 MaxExt = 2\n Menu <- MenuTies Seed = TRUE Starts = {0, 2} Limits <- LimitsNone"
+    consts = ("MaxT = 2 MaxId = 4 MaxSteps = 1 MaxExt = 2\n Menu <- MenuTies Seed = TRUE Starts = {0, 2} Limits <- LimitsNone HeapInit = FALSE"
               if tier == "quick" else
-              "MaxT = 2 MaxId = 5 MaxSteps = 1 MaxExt = 2\n Menu <- MenuTies Seed = TRUE Starts = {0, 2} Limits <- LimitsNone")
+              "MaxT = 2 MaxId = 5 MaxSteps = 1 MaxExt = 2\n Menu <- MenuTies Seed = TRUE Starts = {0, 2} Limits <- LimitsNone HeapInit = FALSE")
     c_rt.gen_replay(v, wd, tier, "C03", consts, 8, "handlers emitting same-instant bursts and zero-delay follow-ups")
     # net level: messages and self-messages emitted by one handler for the same future instants (buffer flush order)
     import c_net
     c_net.run_scn(v, wd, "C03", c_net.Scn("burst", menu="MenuBurst", start="StartBurst", tx="TxZero", lat="Lat1",
-                                          max_inv=3 if tier == "quick" else 4, max_t=6), mc=False)
+                                          max_inv=3 if tier == "quick" else 4, max_t=6), mc=False, heap=True)
     v.cov["rule"] = ("tie-heavy behaviours (3 time values, 5-6 events): queue level on CQueue under every (n,w) x embedding (ties on bucket "
                      "boundaries, year multiples, sub-bucket offsets), runtime level with zero-delay follow-ups after older events of the "
                      "same timestamp; the dispatch sequence is compared as a sequence")
     v.cov["exhaustive"] = True
-    v.assumptions = ["claimed for the default feature set (cqueue backend)"]
+    v.assumptions = ["queue level: des-cqueue; runtime and net level: both event-set backends (cqueue feature on and off)"]
     return v.finish()
 
 
